@@ -71,8 +71,17 @@ func C01(x *Idx) []V {
 			}
 			for _, d := range sp.Deps {
 				dsp := x.SpecAt(d.On, in.Launch)
-				if !scheduled(dsp) {
+				if dsp == nil {
 					continue
+				}
+				if !scheduled(dsp) {
+					// a disabled / foreground dependency is not part of the start-up plan; but once it was
+					// started by a request, a dependent created by a later request finds its instance and
+					// has to wait for it like for any other
+					c := x.creatingRequest(proc, in.Launch)
+					if c < 0 || x.lastOKStartReq(d.On, c) < 0 {
+						continue
+					}
 				}
 				if x.H.Scenario.NoDeps && len(x.H.Scenario.ToRun) > 0 {
 					continue
@@ -175,6 +184,35 @@ func C01(x *Idx) []V {
 		}
 	}
 	return out
+}
+
+// creatingRequest: seq of the start/restart request (answered ok) that created the instance of proc
+// whose first command was launched at launchSeq, -1 if that instance was not created by a request.
+func (x *Idx) creatingRequest(proc string, launchSeq int) int {
+	for i := launchSeq - 1; i >= 0; i-- {
+		if e := x.Ev[i]; e.Kind == world.EvLaunch && e.Proc == proc {
+			return -1
+		}
+		if isStartReq(x.Ev[i], proc) && (x.Ev[i].Text == sc.OpStart || x.Ev[i].Text == sc.OpRestart) {
+			if rt := x.RetOf(i); rt >= 0 && strings.HasSuffix(x.Ev[rt].Text, " ok") {
+				return i
+			}
+			return -1
+		}
+	}
+	return -1
+}
+
+// lastOKStartReq: seq of the last start/restart request on proc before seq that was answered ok.
+func (x *Idx) lastOKStartReq(proc string, seq int) int {
+	for i := seq - 1; i >= 0; i-- {
+		if isStartReq(x.Ev[i], proc) && (x.Ev[i].Text == sc.OpStart || x.Ev[i].Text == sc.OpRestart) {
+			if rt := x.RetOf(i); rt >= 0 && rt < seq && strings.HasSuffix(x.Ev[rt].Text, " ok") {
+				return i
+			}
+		}
+	}
+	return -1
 }
 
 // procName maps a replica name back to its config name.
